@@ -23,8 +23,10 @@ func (w *W) newSymStr(name string, max int) Str {
 	if max <= maxSymIndexWidth {
 		b.Bytes = make([]*Term, max)
 	}
-	ln := w.ts.Var(name+"_len", 64)
-	w.addPC(w.ts.Ule(ln, w.ts.Int64(int64(max))))
+	ln := w.ts.VarBounded(name+"_len", 64, uint64(max))
+	// the bound is also built into the variable's range, so the constraint has
+	// to be constructed without folding for the solver to see it
+	w.addPC(w.ts.mk(OpUle, 0, 0, "", ln, w.ts.Int64(int64(max)), nil))
 	return Str{B: b, Off: w.ts.Int64(0), Len: ln}
 }
 
@@ -83,7 +85,7 @@ func (w *W) conc(s Str) (string, bool) {
 	off, n := int(s.Off.Val), int(s.Len.Val)
 	if !s.B.Sym {
 		if off < 0 || n < 0 || off+n > len(s.B.Conc) {
-			panic(fmt.Sprintf("conc: bad string header off=%d len=%d base=%d", off, n, len(s.B.Conc)))
+			return "", false // only under infeasible speculation
 		}
 		return s.B.Conc[off : off+n], true
 	}
@@ -92,6 +94,9 @@ func (w *W) conc(s Str) (string, bool) {
 	}
 	if n == 0 {
 		return "", true
+	}
+	if off < 0 || n < 0 || off+n > len(s.B.Bytes) {
+		return "", false // only under infeasible speculation
 	}
 	raw := make([]byte, n)
 	for i := 0; i < n; i++ {
